@@ -4,6 +4,7 @@ CONSTANTS
   Rounds = 1
   PerRound = 2
   NotifyMode = "token"
+  TempApps = {}
   ExitMode = "recheck"
 INVARIANTS FIFO LockOK
 CONSTRAINT Mark
